@@ -560,7 +560,7 @@ theorem chainTrace_sync {t : List RevMsg} {k : Nat} (h : ChainTrace t k) :
       simp only [List.cons.injEq, and_true] at this
       obtain ⟨_, rfl⟩ := this
       exact absurd hm hs
-    · have e : a ++ m :: (b' ++ [y]) = (a ++ m :: b') ++ [y] := by simp
+    · have e : a ++ m :: b'.concat y = (a ++ m :: b') ++ [y] := by simp
       rw [e] at hab
       exact ih a m b' (List.append_inj' hab (by simp)).1 hm
   | @sync t k ht ih =>
@@ -572,7 +572,7 @@ theorem chainTrace_sync {t : List RevMsg} {k : Nat} (h : ChainTrace t k) :
       have := congrArg List.length (chainTrace_produced ht)
       simp only [List.length_map, List.length_range] at this
       rw [this]
-    · have e : a ++ m :: (b' ++ [y]) = (a ++ m :: b') ++ [y] := by simp
+    · have e : a ++ m :: b'.concat y = (a ++ m :: b') ++ [y] := by simp
       rw [e] at hab
       exact ih a m b' (List.append_inj' hab (by simp)).1 hm
 
